@@ -118,7 +118,10 @@ def _model_args(spec, d):
     t = build_table(spec)
     p = os.path.join(d, 'model.json')
     with open(p, 'w', encoding='utf-8') as fh:
-        json.dump({'roles': {r: {} for r in t['roles']}, 'normalizations': t['normalizations'], 'reifications': t['reifications']}, fh)
+        doc = {'roles': {r: {} for r in t['roles']}, 'normalizations': t['normalizations'], 'reifications': t['reifications']}
+        if t['top_role'] != ':TOP':
+            doc['top_role'] = t['top_role']
+        json.dump(doc, fh)
     return ['--model', p]
 
 
@@ -176,6 +179,8 @@ def check(case):
         parts = [penman.format(Tree(interp.to_node(gs['tree']), metadata=dict(gs.get('meta') or {})), indent=case.get('in_indent', -1)) for gs in src]
         ngraphs += len(parts)
         texts.append('\n\n'.join(parts) + '\n')
+    if case.get('crlf'):
+        texts = [x.replace('\n', '\r\n') for x in texts]
     o = case['opts']
     use_stdin = bool(case.get('stdin')) and len(texts) == 1
     if use_stdin is False and not texts:
@@ -315,7 +320,10 @@ def _opts(draw):
 
 @st.composite
 def _cases(draw):
-    spec = {'name': draw(st.sampled_from(['default', 'amr', 'amr', 'amr', 'noop', 'mini']))}
+    spec = {'name': draw(st.sampled_from(['default', 'amr', 'amr', 'amr', 'noop', 'mini', 'root']))}
+    if spec['name'] == 'root':
+        spec = {'name': 'custom', 'roles': [':ARG0', ':ARG1', ':mod', ':domain', ':op[0-9]+'], 'normalizations': {':mod-of': ':domain', ':domain-of': ':mod'},
+                'reifications': [[':mod', 'have-mod-91', ':ARG1', ':ARG2']], 'top_role': ':ROOT'}
     R = roles_for(spec)
     fwd = [r for r in C20_ROLES if R.is_canonical_inversion(r) and not R.inverted(r)]
     inv = {r: R.invert(r) for r in fwd if R.inverted(R.invert(r)) and R.is_canonical_inversion(R.invert(r))}
@@ -333,14 +341,14 @@ def _cases(draw):
         sources.append(gs)
     opts = draw(_opts())
     overinv = False
-    if opts.get('canon') and draw(st.integers(0, 2)) == 0:
+    if opts.get('canon') and draw(st.integers(0, 1)) == 0:
         # roles with surplus pairs of inversions: --canonicalize-roles must bring them to a normal form in one pass
         overinv = True
         nkeys = sorted(tbl['normalizations'])
         for src in sources:
             for gsp in src:
                 brs = [b for b in gsp['tree'][1] if b[0] != '/']
-                if nkeys and brs and draw(st.booleans()):
+                if nkeys and brs:
                     brs[0][0] = nkeys[draw(st.integers(0, len(nkeys) - 1))] + '-of-of'   # e.g. :mod-of-of-of
         for src in sources:
             for gsp in src:
@@ -358,7 +366,7 @@ def _cases(draw):
         overinv = False
         sources = [[{'tree': draw(trees.any_trees(max_nodes=5, unicode=False)), 'meta': {}} for _ in range(draw(st.integers(1, 2)))] for _ in range(nsrc)]
     return {'sources': sources, 'model': spec, 'opts': opts, 'stdin': nsrc == 1 and draw(st.booleans()), 'wild': wild, 'overinv': overinv,
-            'in_indent': draw(st.sampled_from([-1, None, 2])), 'alt_indent': draw(st.sampled_from(['no', '0', '4', '-1'])),
+            'crlf': draw(st.integers(0, 3)) == 0, 'in_indent': draw(st.sampled_from([-1, None, 2])), 'alt_indent': draw(st.sampled_from(['no', '0', '4', '-1'])),
             'subprocess': draw(st.integers(0, 49)) == 0}
 
 
